@@ -28,7 +28,7 @@ MANIFEST = dict(
          "dead while a level waits for a value); the differential run additionally compares a reset twin with a fresh parser.",
     note="Trusted: Lean kernel + propext/Classical.choice/Quot.sound; tools/extract; harness/tok.c + Driver/Tok.lean; ASan/UBSan as observers. The "
          "model is hand-written; that the C code computes indices as the model does rests on the correspondence run. Allocation success assumed (C08). Tie by translation (new): json_tokener_validate_utf8 is translated from clang's typed AST of the current source into Lean on every run (tools/extract/c2lean.py -> Generated/Translated.lean) and Lemmas/TranslatedTok.lean proves that the model's validateUtf8 returns the same verdict and pending count for every byte (as the signed char it arrives in; the bit tests compared for all 256 bytes by kernel evaluation, `decide +kernel`, no axiom) and every pending count (validate_first, cont_test, validate_cont).",
-    technique="Lean 4 proof (representation invariant + rank/termination, induction over input and call history) + model/implementation correspondence run",
+    technique="Lean 4 proof (representation invariant + rank/termination, induction over input and call history) + model/implementation correspondence run + agreement theorems with Lean definitions translated from the current C source (clang AST) on every run",
     design="6/C04")
 
 
